@@ -8,8 +8,11 @@ CachedStore / store.Getter) + B3 (all read paths x all arguments in every reache
 predicted outcome class / source is compared with the real outcome)."""
 import json
 import os
+import subprocess
 import threading
 import time
+
+import vlib
 
 META = {
     "technique": "TLC exhaustive on spec/store/SRObject.tla (format + read rules lossless: all layouts x canonical "
@@ -34,15 +37,15 @@ META = {
                   "model's exact class is compared as conformance, exit 2 on drift, never exit 1); reads through a closed "
                   "accessor only must not return wrong data; an invalid axis type is not an index argument and is not probed; "
                   "out-of-bounds arguments are demanded to be refused only on accessors that carry the store's bounds "
-                  "validation (everything the store/getter hands out; GetByHash of the EMPTY block returns the package-level "
-                  "plain accessor and is read with valid arguments only). One block at one height; concurrency is C08, "
+                  "validation (everything Store / CachedStore / Getter hand out, GetByHash included - see the fixed finding "
+                  "C05/panic/*/byhash:emptyblock); the plain cores and single wrappers are read with valid arguments only. One block at one height; concurrency is C08, "
                   "crashes C07. Squares above EDS width 8 are sampled, not exhaustive.",
     "design_ref": "DESIGN.md §5 C05",
 }
 
 ACTIONS = ["PutODSQ4", "PutODS", "Reopen", "RemoveQ4", "EvictRecent", "EvictServing", "HoldStore", "HoldCached",
            "ReadUpperHeld", "ReadAllHeld", "CloseHeld", "GetterReadAll", "CachedReadUpper", "CachedReadAll"]
-BEH_CFGS = ["TT", "TF", "FT", "FF"]
+BEH_CFGS = [r + c + e for r in "TF" for c in "TF" for e in "NE"]
 
 
 def _key(empty, abs_):
@@ -100,9 +103,19 @@ def run(ctx):
         return t
 
     t0 = time.time()
+    # compile the driver while TLC runs (the later go_driver call then only links and runs)
+    def warm():
+        try:
+            vlib.gen_go_mod()
+            subprocess.run(["go", "test", "-tags", "verif", "-count=1", "-vet=off", "-run", "XXX_none", "./drivers/storerepr"],
+                           cwd=vlib.HARNESS, env=vlib.go_env(), stdout=subprocess.DEVNULL, stderr=subprocess.DEVNULL, timeout=1500)
+        except Exception:
+            pass
+    wt = threading.Thread(target=warm, daemon=True)
+    wt.start()
     # --- behaviours of the representation graph (four cache configurations = four TLC processes) and the
     #     layout tables: needed by the driver, started first
-    first = [start("beh_" + c, "store/MCStoreRepr.tla", "store/MCStoreReprBeh_%s.cfg" % c, workers=3, timeout=900,
+    first = [start("beh_" + c, "store/MCStoreRepr.tla", "store/MCStoreReprBeh_%s.cfg" % c, workers=2, timeout=900,
                    coverage=not quick) for c in BEH_CFGS]
     first += [start("layouts", "store/SRObject.tla", "store/MCSRObject_layouts.cfg", workers=4, timeout=900),
               start("layouts3", "store/SRObject.tla", "store/MCSRObject_layouts3.cfg", workers=2, timeout=900)]
@@ -153,6 +166,7 @@ def run(ctx):
         os.environ["VERIF_REPLAY_CASE"] = json.dumps(rp)
         ctx.log("replay: %d matching behaviour(s)" % len(cases))
 
+    wt.join()
     cases_path = os.path.join(ctx.work, "cases.json")
     json.dump({"edges": cases, "layouts": layouts}, open(cases_path, "w"))
     env = {"VERIF_CASES": cases_path}
